@@ -5,9 +5,10 @@
          TY ::= u | b | a ; argument and result types TOP FIRST.  Runs AVM.StackCheck.stack_check.
          -> (accept (strict BOOL) (pcs N) (routines (ENTRY (TY..) (TY..)) ...))
           | (reject PC "message" "opcode") | (uncovered PC "message") | (fuel) | (parse-error)
+     (fieldty txn|global NAME) -> u | b | a       the field-type table of AVM/StackSig.v
      (run5 (ctx ...) "teal text")
          executes the program on AVM.Machine like the main binary's (run ...) and classifies a failing last step:
-         -> (ran VERDICT (pc N) (class CLASS) (typed BOOL) (stack V ...))
+         -> (ran VERDICT (pc N) (class CLASS) (typed BOOL) (calls DEPTH) (op "opcode at pc") (stack V ...))
             CLASS ::= none | shape | value | err | overflow | const-index | frame | label | off-end
             shape  = the operands the opcode needs (StackSig) are missing or have the wrong type
             typed  = the context satisfies StackSig.ctx_typed
@@ -122,10 +123,26 @@ Definition do_run5 (body : list sexp) : sexp :=
                      SList [Atom "pc"; snat (m_pc m)];
                      SList [Atom "class"; Atom (match v with VFail => fail_class p m | _ => "none" end)];
                      SList [Atom "typed"; sbool (ctx_typedb (ri_ctx ri))];
+                     SList [Atom "calls"; snat (List.length (m_calls m))];
+                     SList [Atom "op"; Str (opname_at p (m_pc m))];
                      SList (Atom "stack" :: map p_value (m_stack m))]
           end
       end
   | _ => err "run5: expected (ctx ...) and a program text"
+  end.
+
+(* (fieldty txn|global NAME) -> u | b | a : the hand-maintained field-type tables of AVM/StackSig.v *)
+Definition do_fieldty (body : list sexp) : sexp :=
+  match body with
+  | [Atom g; f] =>
+      match w_string f with
+      | Some name =>
+          if String.eqb g "txn" then p_ty (txn_field_ty name)
+          else if String.eqb g "global" then p_ty (global_field_ty name)
+          else err "fieldty: unknown group"
+      | None => err "fieldty: bad name"
+      end
+  | _ => err "fieldty: expected a group and a name"
   end.
 
 Definition dispatch (e : sexp) : sexp :=
@@ -133,6 +150,7 @@ Definition dispatch (e : sexp) : sexp :=
   | SList (Atom cmd :: body) =>
       if String.eqb cmd "check" then do_check body
       else if String.eqb cmd "run5" then do_run5 body
+      else if String.eqb cmd "fieldty" then do_fieldty body
       else err ("unknown command " ++ cmd)
   | _ => err "expected (command ...)"
   end.
